@@ -371,9 +371,8 @@ def store(kind: str, path: Path, items: list):
     return errs
 
 
-def raw_values(path: Path, keys: list) -> dict:
-    """the stored wire value per key: UKVFile.get + msgpack (tuples, any map key)"""
-    import msgpack
+def raw_bytes(path: Path, keys: list) -> dict:
+    """the stored bytes per key (UKVFile.get)"""
     from molli.storage.ukvfile import UKVFile
     out = {}
     with UKVFile(path, mode="r") as f:
@@ -381,8 +380,14 @@ def raw_values(path: Path, keys: list) -> dict:
         for k in keys:
             kb = k.encode()
             if kb in listed:
-                out[k] = msgpack.loads(f.get(kb), use_list=False, strict_map_key=False)
+                out[k] = bytes(f.get(kb))
     return out
+
+
+def raw_values(path: Path, keys: list) -> dict:
+    """the stored wire value per key: UKVFile.get + msgpack (tuples, any map key)"""
+    import msgpack
+    return {k: msgpack.loads(b, use_list=False, strict_map_key=False) for k, b in raw_bytes(path, keys).items()}
 
 
 def load(kind: str, path: Path, keys: list) -> dict:
